@@ -245,8 +245,12 @@ func c11GenCase(t *rapid.T) c11Case {
 				if depth == 0 && i == 0 && rapid.IntRange(0, 4).Draw(t, label+dn+"twice") == 0 {
 					// (enablement rules below a chart that is declared twice are left out: the two copies share their nested
 					// metadata in Helm - a known finding of its own - and combining both deviations would only blur signatures)
+					// (only for nested dependencies that carry an alias themselves - the trigger of that finding; plain nested
+					// dependencies keep their conditions and tags, and the two copies must prune them independently)
 					for _, dd := range d.Deps {
-						c11StripEnable(dd)
+						if dd.Alias != "" {
+							c11StripEnable(dd)
+						}
 					}
 					d2 := *d
 					d2.Alias = "twin"
